@@ -26,7 +26,8 @@ def facts(ctx):
     ib = common.fn_body(rd, r"pub\s+fn\s+into_builder\s*\(", "Reader::into_builder")
     need = ["builder.definition.claim_generator_info", "builder.definition.title = manifest.title()", "builder.definition.thumbnail = manifest.thumbnail_ref()",
             "builder.definition.redactions = manifest.redactions.take()", "builder.add_ingredient(ingredient)", "labels::ARCHIVE_METADATA",
-            "assertion.created()", "builder.definition.label = Some(label.to_string())"]
+            "assertion.created()", "builder.definition.label = Some(label.to_string())",
+            "builder.resources.chain_resolver_from(manifest.resources())"]      # fix 39e7c1520
     for n in need:
         if n not in ib:
             raise TieBroken("srcfacts: Reader::into_builder no longer contains `%s`" % n)
